@@ -657,6 +657,76 @@ func (c *Ctx) ruleFreeLists(rule string) {
 				}
 			}
 			c.Check(rule, "putGengineLocked#exactly-once", !none && !twice, put.Pos(), "the wrapper must be put back exactly once")
+			// ... and the code that appends always runs: when it lives in a literal (the
+			// asynchronous hand-back), every path through the enclosing function starts it
+			always := true
+			for f := lit; f != put && f != nil; f = f.Parent() {
+				par := f.Parent()
+				if par == nil {
+					always = false
+					break
+				}
+				starts := func(in ssa.Instruction) bool {
+					cc := callCommon(in)
+					if cc == nil {
+						return false
+					}
+					if mc, ok := cc.Value.(*ssa.MakeClosure); ok {
+						return mc.Fn == ssa.Value(f)
+					}
+					return cc.Value == ssa.Value(f)
+				}
+				if _, skip := pathExists(par, nil, isReturn, starts); skip {
+					// a hand-back skipped for a wrapper that is not checked out (a guard against
+					// putting one wrapper back twice) is fine when every checkout marks the wrapper:
+					// the guards test one field of the wrapper, and getGengine writes that field
+					// before each of its returns
+					always = false
+					px := c.Index(par)
+					var goIn ssa.Instruction
+					eachInstr(par, func(in ssa.Instruction) {
+						if starts(in) {
+							goIn = in
+						}
+					})
+					field := ""
+					okGuards := goIn != nil
+					if goIn != nil {
+						gs := px.GuardsOf(goIn.Block())
+						if len(gs) == 0 {
+							okGuards = false
+						}
+						for _, g := range gs {
+							fn := wrapperFieldOf(px, g.Cond)
+							if fn == "" || (field != "" && fn != field) {
+								okGuards = false
+							}
+							field = fn
+						}
+					}
+					if okGuards && field != "" && get != nil {
+						gx := c.Index(get)
+						marked := true
+						eachInstr(get, func(in ssa.Instruction) {
+							r, isR := in.(*ssa.Return)
+							if !isR {
+								return
+							}
+							found := false
+							eachInstr(get, func(i2 ssa.Instruction) {
+								if wrapperFieldWrite(gx, i2) == field && domInstr(i2, r) {
+									found = true
+								}
+							})
+							if !found {
+								marked = false
+							}
+						})
+						always = marked
+					}
+				}
+			}
+			c.Check(rule, "putGengineLocked#always-hands-back", always, put.Pos(), "every call of putGengineLocked must start the hand-back: a path returns without it (the wrapper would be lost to the pool)")
 		} else {
 			c.Check(rule, "putGengineLocked#exactly-once", false, put.Pos(), "expected one append per free list, found %d", n)
 		}
@@ -796,4 +866,59 @@ func (c *Ctx) ruleConstruction(rule string) {
 		}
 	})
 	c.Check(rule, "NewGenginePool#rbSlice-covers-max", okLen && okMax, f.Pos(), "rbSlice must have poolMaxLen entries and gp.max must be poolMaxLen")
+}
+
+// wrapperFieldOf: the condition tests one field of a gengineWrapper (a read of it, or an
+// atomic load / compare-and-swap on its address); the field's name.
+func wrapperFieldOf(x *FnIndex, cond ssa.Value) string {
+	var find func(v ssa.Value, d int) string
+	find = func(v ssa.Value, d int) string {
+		if d > 5 || v == nil {
+			return ""
+		}
+		switch t := x.Origin(v).(type) {
+		case *ssa.UnOp:
+			if t.Op == token.MUL {
+				if fa, ok := t.X.(*ssa.FieldAddr); ok && structName(fa.X.Type()) == "gengineWrapper" {
+					return fieldOf(fa).Name()
+				}
+				return ""
+			}
+			return find(t.X, d+1)
+		case *ssa.BinOp:
+			if f := find(t.X, d+1); f != "" {
+				return f
+			}
+			return find(t.Y, d+1)
+		case *ssa.Call:
+			if cal := t.Call.StaticCallee(); cal != nil && cal.Pkg != nil && cal.Pkg.Pkg.Path() == "sync/atomic" && len(t.Call.Args) > 0 {
+				if fa, ok := t.Call.Args[0].(*ssa.FieldAddr); ok && structName(fa.X.Type()) == "gengineWrapper" {
+					return fieldOf(fa).Name()
+				}
+			}
+		}
+		return ""
+	}
+	return find(cond, 0)
+}
+
+// wrapperFieldWrite: the instruction writes a field of a gengineWrapper (a store, or an
+// atomic store / swap / add on its address); the field's name.
+func wrapperFieldWrite(x *FnIndex, in ssa.Instruction) string {
+	switch t := in.(type) {
+	case *ssa.Store:
+		if fa, ok := t.Addr.(*ssa.FieldAddr); ok && structName(fa.X.Type()) == "gengineWrapper" {
+			return fieldOf(fa).Name()
+		}
+	case *ssa.Call:
+		if cal := t.Call.StaticCallee(); cal != nil && cal.Pkg != nil && cal.Pkg.Pkg.Path() == "sync/atomic" && len(t.Call.Args) > 0 {
+			if strings.HasPrefix(cal.Name(), "Load") {
+				return ""
+			}
+			if fa, ok := t.Call.Args[0].(*ssa.FieldAddr); ok && structName(fa.X.Type()) == "gengineWrapper" {
+				return fieldOf(fa).Name()
+			}
+		}
+	}
+	return ""
 }
